@@ -78,6 +78,16 @@ func c14Versions(kind string, now time.Time) []*alert.Alert {
 		return append(out,
 			vAlert("A", "1", "1", start, now.Add(5*time.Minute), now.Add(-2*ms), true),
 			vAlert("A", "1", "2", start, now.Add(-1*ms), now.Add(-1*ms), false))
+	case "batch-resolve", "batch-refresh": // both versions in ONE request: the API stamps one receive time on all of them
+		end := now.Add(-1 * ms)
+		firing := false
+		if kind == "batch-refresh" {
+			end, firing = now.Add(5*time.Minute+ms), true
+		}
+		return []*alert.Alert{
+			vAlert("A", "1", "1", start, now.Add(5*time.Minute), now.Add(-1*ms), true),
+			vAlert("A", "1", "2", start, end, now.Add(-1*ms), firing),
+		}
 	case "refire": // resolved alert fires again
 		return []*alert.Alert{
 			vAlert("A", "1", "1", start, now.Add(-2*ms), now.Add(-2*ms), false),
@@ -121,6 +131,10 @@ func c14Exec(t *testing.T, p c14Part, prefix []int, expect []string, trace bool)
 
 			s.SetBranching(true)
 			done = s.Go(func() {
+				if strings.HasPrefix(p.kind, "batch-") {
+					f.alerts.Put(context.Background(), vs...)
+					return
+				}
 				for _, v := range vs {
 					f.alerts.Put(context.Background(), v)
 				}
@@ -226,13 +240,15 @@ func TestVerifC14(t *testing.T) {
 			jobs = append(jobs, job{c14Part{k, 0}, -1, 0}, job{c14Part{k, 1}, -1, 0})
 		}
 		jobs = append(jobs, job{c14Part{"refresh3", 0}, 3, 0}, job{c14Part{"refresh", 4}, 3, 0}, job{c14Part{"resolve", 4}, 3, 0}, job{c14Part{"two", 0}, 3, 0}, job{c14Part{"two", 4}, 2, 0}, job{c14Part{"backlog", 0}, 2, 0},
-			job{c14Part{"pre-resolve", 0}, -1, 3}, job{c14Part{"pre-refresh3", 0}, -1, 3}, job{c14Part{"pre-refire", 1}, -1, 3})
+			job{c14Part{"pre-resolve", 0}, -1, 3}, job{c14Part{"pre-refresh3", 0}, -1, 3}, job{c14Part{"pre-refire", 1}, -1, 3},
+			job{c14Part{"batch-resolve", 0}, -1, 0}, job{c14Part{"batch-refresh", 1}, -1, 0}, job{c14Part{"batch-resolve", 4}, 3, 0})
 	} else {
 		for _, k := range []string{"refresh", "resolve", "refire"} {
 			jobs = append(jobs, job{c14Part{k, 0}, 2, 0}, job{c14Part{k, 1}, 2, 0})
 		}
 		jobs = append(jobs, job{c14Part{"refresh3", 0}, 1, 0}, job{c14Part{"refresh", 4}, 2, 0}, job{c14Part{"two", 0}, 2, 0}, job{c14Part{"backlog", 0}, 1, 0},
-			job{c14Part{"pre-resolve", 0}, -1, 2}, job{c14Part{"pre-refresh3", 1}, -1, 2})
+			job{c14Part{"pre-resolve", 0}, -1, 2}, job{c14Part{"pre-refresh3", 1}, -1, 2},
+			job{c14Part{"batch-resolve", 0}, 2, 0}, job{c14Part{"batch-refresh", 1}, 2, 0})
 	}
 	if rp := rep.ReplaySpec(); rp != nil {
 		part, _ := rp["part"].(string)
